@@ -179,6 +179,42 @@ def annotations():
           yield "ann:%s/%s/%s/%s" % (cn, fn_, tn, vn), PRELUDE + body
 
 
+# ---------------------------------------------------------------- annotated signatures
+
+SIG_ANNS = (("int", "int"), ("other", "'Other'"), ("tv", "TB"), ("lst", "list[int]"), ("callable", "Callable[[int], str]"),
+            ("undef", "Undefined"), ("fwd", "'Later'"), ("none", "None"), ("self", "'Host'"), ("union", "int | None"))
+# (id, template with {A}); Host is the defining class, Other an unrelated class, TB a TypeVar bound to Other
+SIG_FORMS = (
+    ("fn_param", "def g(p: {A}):\n  return p\nr = g(1)\n"),
+    ("fn_ret", "def g(p) -> {A}:\n  return p\nr = g(1)\n"),
+    ("fn_kwonly", "def g(*, p: {A} = 1):\n  return p\nr = g()\n"),
+    ("fn_star", "def g(*p: {A}, **q: {A}):\n  return p\nr = g(1, k=2)\n"),
+    ("meth_self", "class Host:\n  def m(self: {A}):\n    return self\nr = Host().m()\n"),
+    ("meth_self_uncalled", "class Host:\n  x = 1\n  def m(self: {A}, a=0):\n    return self.x\n"),
+    ("meth_param", "class Host:\n  def m(self, p: {A}) -> {A}:\n    return p\nr = Host().m(1)\n"),
+    ("cls_cls", "class Host:\n  @classmethod\n  def c(cls: {A}, p=0):\n    return cls\nr = Host.c()\n"),
+    ("static", "class Host:\n  @staticmethod\n  def s(p: {A}):\n    return p\nr = Host.s(1)\n"),
+    ("prop", "class Host:\n  @property\n  def p(self: {A}) -> {A}:\n    return self\nr = Host().p\n"),
+    ("init", "class Host:\n  def __init__(self: {A}, v: {A} = None):\n    self.v = v\nr = Host()\n"),
+    ("dunder", "class Host:\n  def __add__(self: {A}, o: {A}) -> {A}:\n    return o\nr = Host() + 1\n"),
+    ("nested", "def outer():\n  def inner(p: {A}) -> {A}:\n    return p\n  return inner(1)\nr = outer()\n"),
+    ("lambda_default", "def g(p: {A} = (lambda: 0)()):\n  return p\n"),
+    ("var", "v: {A} = 1\nclass Host:\n  w: {A}\n"),
+    ("mixin", "class Mixin:\n  def m(self: {A}):\n    return self.x\nclass Host(Mixin):\n  x = 1\nr = Host().m()\n"),
+)
+SIG_PRELUDE = ("from typing import Callable, TypeVar\n"
+               "class Other:\n  y = 's'\n"
+               "TB = TypeVar('TB', bound=Other)\n")
+SIG_EPILOGUE = "class Later:\n  z = 1.5\n"
+
+
+def signatures():
+  """Yields (id, source): every signature form x every annotation."""
+  for fid, ft in SIG_FORMS:
+    for aid, at in SIG_ANNS:
+      yield "sig:%s/%s" % (fid, aid), SIG_PRELUDE + ft.replace("{A}", at) + SIG_EPILOGUE
+
+
 def expression_programs(depth, contexts=("mod", "fn"), core_only=False):
   for eid, stmt in expressions(depth, core_only):
     for ctx in contexts:
